@@ -1225,6 +1225,142 @@ def errtext_oracle(ck: Ck) -> None:
 
 
 
+# ------------------------------------------------------------------------------------------------ round 6: user text that reaches a message
+# Every piece of user text that can end up in (or next to) an error message - key, value, flag, block name, directive,
+# parentheses block - is filled with characters that are active in str.format / %-formatting, at every error site of
+# Keyvalues.parse and of the tokenizer below it, under every vector of the parse options.  Nothing but KeyValError may leave,
+# and the outcome must not depend on the chunking.
+FMT_PIECES = ['', '{', '}', '{0}', '{1}', '{name}', '{a.b}', '{0.x}', '{0[k]}', '{}{}', '{!r}', '{:>9}', '{{', '}}', '%s', '%(n)s', '%']
+# one template per exit; the slots K key, V value, F flag, B block name, D directive / bare word, P parentheses; `~` a line break inside a string
+FMT_TEMPLATES = [
+    ('ok-leaf', '"K" "V"\n'), ('ok-leaf-flag', '"K" "V" [F]\n'), ('ok-leaf-notflag', '"K" "V" [!F]\n'),
+    ('ok-block', '"B"\n{\n"K" "V"\n}\n'), ('ok-block-flag', '"B" [F]\n{\n"K" "V"\n}\n'), ('ok-block-notflag', '"B" [!F]\n{\n"K" "V"\n}\n'),
+    ('ok-replace', '"K" "V"\n"K" "V" [!F]\n'), ('ok-replace-block', '"B"\n{\n}\n"B" [!F]\n{\n}\n'),
+    ('subsection', '"B"\n{\n"K" "V"\n{\n}\n}\n'), ('block-required', '"B"\n"K" "V"\n'), ('block-required-flag', '"B" [!F]\n"K" "V"\n'),
+    ('newline-in-key', '"K~K" "V"\n'), ('newline-in-key-block', '"B~B"\n{\n}\n'), ('newline-in-key-first', '"~K" "V"\n'),
+    ('newline-in-value', '"K" "V~V"\n'), ('newline-in-value-last', '"K" "V~"\n'), ('newline-in-value-block', '"B"\n{\n"K" "~V" [!F]\n}\n'),
+    ('newline-in-both', '"K~" "V~"\n'),
+    ('multiple-names', '"K" "V" "K" "V"\n'), ('too-many-close', '"K" "V"\n}\n'), ('too-many-close-block', '"B"\n{\n}\n}\n'),
+    ('unexpected-equals', '"K" "V"\n=\n'), ('unexpected-flag', '[F]\n'), ('unexpected-flag-after', '"K" "V" [F] [F]\n'),
+    ('unexpected-directive', '#D\n'), ('unexpected-directive-in-block', '"B"\n{\n#D "V"\n}\n'), ('unexpected-parens', '(P)\n'),
+    ('unexpected-parens-after', '"K" (P)\n'), ('expected-newline', '"K" "V" [F] "K"\n'), ('expected-newline-block', '"B" [F] {\n'),
+    ('expected-newline-eof', '"K" "V" [!F]'), ('eof-block', '"B"\n'), ('eof-block-flag', '"B" [!F]\n'),
+    ('eof-open', '"B"\n{\n"K" "V"\n'), ('eof-open-nested', '"B"\n{\n"B"\n{\n"K" "V"\n}\n'),
+    ('bare-key', 'D "V"\n'), ('bare-both', 'D D\n'),
+    ('lex-unterminated-key', '"K'), ('lex-unterminated-value', '"K" "V'), ('lex-unterminated-flag', '"K" "V" [F'),
+    ('lex-unterminated-parens', '"K" (P'), ('lex-flag-newline', '"K" "V" [F\n]\n'), ('lex-escape', '"K\\qK" "V"\n'),
+    ('lex-escape-value', '"K" "V\\qV"\n'), ('lex-escape-eof', '"K" "V\\'), ('lex-comment', '"K" "V" /D\n'), ('lex-star-comment', '"K" "V" /* D'),
+]
+FMT_SLOTS = 'KVFBDP'
+FMT_NEUTRAL = {'K': 'key', 'V': 'val', 'F': 'flg', 'B': 'blk', 'D': 'dir', 'P': 'par'}
+FMT_FLAGSETS = [None, {'flg': True, '{0}': True, '{': False, '%s': True}]
+# token level (a tokenizer made by the caller): Token value -> slot
+FMT_TOKEN_LISTS = [
+    ('tok-newline-in-key', [(1, 'K\nK'), (1, 'V'), (2, '\n')]), ('tok-newline-in-value', [(1, 'K'), (1, 'V\rV'), (2, '\n')]),
+    ('tok-leaf-flag', [(1, 'K'), (1, 'V'), (11, 'F'), (2, '\n')]), ('tok-block-flag', [(1, 'B'), (11, '!F'), (2, '\n'), (6, '{'), (7, '}')]),
+    ('tok-unexpected-flag', [(11, 'F')]), ('tok-unexpected-directive', [(4, 'D')]), ('tok-unexpected-parens', [(3, 'P')]),
+    ('tok-expected-newline', [(1, 'K'), (1, 'V'), (11, 'F'), (1, 'K')]), ('tok-multiple', [(1, 'K'), (1, 'V'), (1, 'K')]),
+    ('tok-eof-open', [(1, 'B'), (2, '\n'), (6, '{'), (1, 'K'), (1, 'V')]), ('tok-eof-block', [(1, 'B'), (2, '\n')]),
+    ('tok-block-required', [(1, 'B'), (2, '\n'), (1, 'K'), (1, 'V')]), ('tok-close', [(1, 'K'), (1, 'V'), (2, '\n'), (7, '}')]),
+    ('tok-unexpected-operator', [(1, 'K'), (1, 'V'), (2, '\n'), (15, 'D')]),
+]
+
+
+def fmt_fill(tpl: str, slot: str, piece: str) -> str:
+    """The template with `piece` in the slot `slot` ('*': in every slot) and neutral words elsewhere."""
+    return ''.join((piece if (slot == '*' or ch == slot) else FMT_NEUTRAL[ch]) if ch in FMT_NEUTRAL else ('\n' if ch == '~' else ch) for ch in tpl)
+
+
+def fmt_kw(v: int) -> dict:
+    """Option vector: bits 0-3 newline_keys, newline_values, allow_escapes, single_line; bit 4 single_block; bit 5 the flag set."""
+    kw: dict = dict(newline_keys=bool(v & 1), newline_values=bool(v & 2), allow_escapes=bool(v & 4), single_line=bool(v & 8))
+    if v & 16:
+        kw['single_block'] = True
+    if v & 32:
+        kw['flags'] = FMT_FLAGSETS[1]
+    return kw
+
+
+def fmt_tokens_outcome(toks: list, kw: dict) -> tuple:
+    from srctools.keyvalues import KeyValError, Keyvalues
+    from srctools.tokenizer import IterTokenizer, Token
+    kw = {k: v for k, v in kw.items() if k != 'allow_escapes'}
+    try:
+        kv = Keyvalues.parse(IterTokenizer([(Token(t), v) for t, v in toks]), 'made.kv', **kw)
+        return ('ok', _tree(kv))
+    except KeyValError as e:
+        return ('KeyValError', e.mess, e.line_num)
+    except Exception as e:  # noqa: BLE001
+        return ('FOREIGN', type(e).__name__, str(e)[:80])
+
+
+def fmtactive_oracle(ck: Ck) -> None:
+    sites: dict[str, set] = {}
+    told: set = set()
+    for tname, tpl in FMT_TEMPLATES:
+        slots = [c for c in FMT_SLOTS if c in tpl]
+        for slot in slots + (['*'] if len(slots) > 1 else []):
+            for piece in FMT_PIECES:
+                s = fmt_fill(tpl, slot, piece)
+                for v in range(64):
+                    if v & 32 and 'F' not in tpl:
+                        continue
+                    kw = fmt_kw(v)
+                    ck.count('oracle_kvparse_format_active')
+                    ref = kv_oracle(s, None, **kw)
+                    sites.setdefault(tname, set()).add(ref[0] if ref[0] != 'KeyValError' else ref[1][:24])
+                    if ref[0] == 'FOREIGN':
+                        if (tname, ref[1]) in told or capped('fmtactive:' + ref[1]):     # one report per (exit, exception type), CAP per type
+                            continue
+                        told.add((tname, ref[1]))
+                        small = shrink(s, lambda t: kv_oracle(t, None, **kw)[:2] == ref[:2])
+                        for name in list(kw):       # drop the options that are not needed (back to the default)
+                            kw2 = {k: x for k, x in kw.items() if k != name}
+                            if kv_oracle(small, None, **kw2)[:2] == ref[:2]:
+                                kw = kw2
+                        fl = kw.pop('flags', None)
+                        ck.violation(f'kvparse-foreign-exception:{ref[1]}:format-active:{tname}:' + '+'.join(cname(c) for c in small[:10]),
+                                     f'Keyvalues.parse({small!r}, {dict(kw, flags=fl) if fl else kw}) raised {ref[1]}: {kv_oracle(small, None, **dict(kw, **({"flags": fl} if fl else {})))[2]} '
+                                     f'(only KeyValError may escape; template {tname}, slot {slot} filled with {piece!r})',
+                                     {'kind': 'kvparse', 'text': [ord(c) for c in small], 'kw': kw, 'flags': fl})
+                        continue
+                    if v in (0, 15, 21, 42) and kv_oracle(s, [c for c in s], **kw) != ref and not capped('fmtactive-chunks'):
+                        ck.violation('kvparse-chunk-dependence:format-active:' + tname + ':' + cname(piece[0]),
+                                     f'Keyvalues.parse({s!r}, {kw}) differs between one string and per-character chunks',
+                                     {'kind': 'kvparse-chunks', 'text': [ord(c) for c in s], 'kw': {k: x for k, x in kw.items() if k != 'flags'}, 'flags': kw.get('flags')})
+    for tname, toks in FMT_TOKEN_LISTS:
+        slots = [c for c in FMT_SLOTS if any(c in val for t, val in toks if t not in (2, 6, 7))]
+        for slot in slots + (['*'] if len(slots) > 1 else []):
+            for piece in FMT_PIECES:
+                tl = [(t, val if t in (2, 6, 7) else fmt_fill(val, slot, piece)) for t, val in toks]
+                for v in [x for x in range(64) if not x & 4]:
+                    if v & 32 and not any(t == 11 for t, _ in toks):
+                        continue
+                    kw = fmt_kw(v)
+                    ck.count('oracle_kvparse_format_active_tokens')
+                    ref = fmt_tokens_outcome(tl, kw)
+                    sites.setdefault(tname, set()).add(ref[0] if ref[0] != 'KeyValError' else ref[1][:24])
+                    if ref[0] == 'FOREIGN' and (tname, ref[1]) not in told and not capped('fmtactive-tok:' + ref[1]):
+                        told.add((tname, ref[1]))
+                        small = _shrink_list(tl, lambda t: fmt_tokens_outcome(t, kw)[:2] == ref[:2])
+                        for name in list(kw):
+                            kw2 = {k: x for k, x in kw.items() if k != name}
+                            if fmt_tokens_outcome(small, kw2)[:2] == ref[:2]:
+                                kw = kw2
+                        ck.violation(f'kvparse-foreign-exception:{ref[1]}:format-active:{tname}:' + '+'.join(U_tokname(t) for t, _ in small[:8]),
+                                     f'Keyvalues.parse(IterTokenizer({[(U_tokname(t), val) for t, val in small]}), **{kw}) raised {ref[1]}: {fmt_tokens_outcome(small, kw)[2]} '
+                                     f'(only KeyValError may escape; slot {slot} filled with {piece!r})',
+                                     {'kind': 'kvparse-toklist', 'tokens': [[t, val] for t, val in small], 'kw': {k: x for k, x in kw.items() if k != 'flags'}, 'flags': kw.get('flags')})
+    for tname, outs in sorted(sites.items()):         # which exits every template reached (evidence: distribution.format_active_exits)
+        for o in sorted(outs):
+            ck.hist('format_active_exits', f'{tname} -> {o}')
+
+
+def U_tokname(t: int) -> str:
+    from srctools.tokenizer import Token
+    return Token(t).name
+
+
 # ------------------------------------------------------------------------------------------------ oracle on the implementation
 def chunk_oracle(s: str, bits: int, cs: list[str]) -> str | None:
     """Chunked delivery must give the same trace as the single string; nothing but TokenSyntaxError may escape."""
@@ -1544,6 +1680,7 @@ def search(ck: Ck, escalate: bool) -> None:
     basetok_search(ck, big)
     U.stage_bounded(ck, "error-text-oracle", errtext_oracle, ck)
     U.stage_bounded(ck, 'premade-tokenizer-oracle', premade_oracle, ck)
+    U.stage_bounded(ck, 'format-active-oracle', fmtactive_oracle, ck)
     source_kind_oracle(ck)
     ck.sample({'oracle_example': {'text': 'a\r\n/*x*/b', 'chunks': ['a\r', '', '\n/*x*', '/b'], 'check': 'same trace as the single string'}})
 
@@ -1800,6 +1937,15 @@ def replay(data: dict) -> int:
             print(f' model (parser model as configured by the last ./check run): {kv_name(int(mv[0].split("%")[0]))}')
         print('VIOLATED' if c >= 300 else 'property holds on this input')
         return 1 if c >= 300 else 0
+    if r.get('kind') == 'kvparse-toklist':
+        kw = dict(r.get('kw', {}))
+        if r.get('flags'):
+            kw['flags'] = r['flags']
+        toks = [(t, v) for t, v in r['tokens']]
+        a = fmt_tokens_outcome(toks, kw)
+        print(f'Keyvalues.parse(IterTokenizer({[(U_tokname(t), v) for t, v in toks]}), **{kw})\n -> {a}')
+        print('VIOLATED' if a[0] == 'FOREIGN' else 'property holds on this input')
+        return 1 if a[0] == 'FOREIGN' else 0
     if r.get('kind') == 'premade':
         class _Ck:                      # run the oracle alone and show what it reports
             violations: list = []
